@@ -1,1 +1,134 @@
-(* Props/C12.v — to be filled *)
+(* Props/C12.v — property theorems only.  Model: Model/Validate.v (hand
+   transcription of ExcelCompiler.validate_calcs, lines 600-659, and of
+   _CellBase.close_enough, lines 1044-1053, of excelcompiler.py) on top of the
+   cache machine Model/Graph.v; tied by the differential run of
+   harness/props/c12.py.  Every theorem holds for EVERY well-formed workbook W
+   (a DAG in topological presentation), EVERY formula semantics [sem] that never
+   computes a blank, EVERY tolerance that is absent or positive, and EVERY list
+   of checked outputs (validate_calcs(output_addrs=None) is the list of all
+   formula cells).
+
+   Vocabulary (Proofs/C01Base.v, C01.v, C12Base.v, C12.v):
+     wf W, sem_nonblank, spec W sem inp n, anc W a n      as in Props/C01.v
+     is_fcell W n         n is a formula cell (not an input, not a range node)
+     stored_consistent    stored n = from-scratch value, for every formula cell
+     stored_full W        every formula cell has a stored result (not None)
+     perturb W p v'       W with the stored result of p replaced by v'
+     good b / clean n / semiclean n
+                          stored b = spec b / n and all its ancestors are good /
+                          all strict ancestors of n are good
+     tol_pos tol          tolerance=None or tolerance > 0
+     is_scalar v          logical, number or text (error values are text)
+     validate W sem ftext tol outs
+                          the final state of the loop: vs_report = the 'mismatch'
+                          dictionary (rep_get r n = Some (original, calced)),
+                          vs_verified = the set [verified], vs_todo = what is
+                          left on the stack when the fuel
+                          |outs| + |edges| + 1 runs out
+     ftext n              str(cell.formula): a cell whose value equals this text
+                          is skipped by the loop ('No Orig data?', lines 635-637)
+
+   Side conditions that the implementation really needs (faithful model
+   refutes the statement without them, coq/Refuted/C12_*.v):
+     tol_pos                       tolerance=0 reports every number cell
+     v' is not the formula's text  such a cell is skipped silently, and so are
+                                   the precedents only it reaches
+   Side conditions of the proof only: from-scratch values of formula cells are
+   scalars (close_enough is then reflexive); no formula computes its own text.
+   ORACLE-ONLY: the classification of cells that raise into 'exceptions' /
+   'not-implemented' (formula meaning is total in the model). *)
+From Coq Require Import List QArith.
+From PV Require Import Lib.Py Model.Graph Model.Validate.
+From PV Require Import Proofs.C01Base Proofs.C01 Proofs.C12Base Proofs.C12.
+Import ListNotations.
+Local Open Scope nat_scope.
+
+(* PARTIAL (tolerance absent or positive): on a workbook whose stored results
+   are what its formulas produce, the report is empty — whatever the outputs *)
+Theorem C12_sound_partial : forall W sem ftext tol,
+  wf W -> sem_nonblank W sem -> stored_consistent W sem -> tol_pos tol ->
+  (forall n, n < wb_n W -> is_fcell W n = true -> is_scalar (spec W sem (wb_inp0 W) n) = true) ->
+  (forall n vals, n < wb_n W -> is_fcell W n = true -> py_eq (sem n vals) (VStr (ftext n)) = false) ->
+  forall outs, (forall o, In o outs -> o < wb_n W) ->
+    vs_report (validate W sem ftext tol outs) = [].
+Proof. exact sound. Qed.
+Print Assumptions C12_sound_partial.
+
+(* PARTIAL (v' present and not the text of p's formula; tolerance absent or
+   positive): if the stored result of ONE formula cell p reachable from the
+   outputs is replaced by a value v' that is not close_enough to the true value,
+   p is reported with (original, calced) = (v', true value), and every reported
+   cell is p or has p among its ancestors — whatever the pop order *)
+Theorem C12_complete_partial : forall W sem ftext tol p v',
+  wf W -> sem_nonblank W sem -> stored_consistent W sem ->
+  p < wb_n W -> is_fcell W p = true -> tol_pos tol ->
+  (forall n, n < wb_n W -> is_fcell W n = true -> is_scalar (spec W sem (wb_inp0 W) n) = true) ->
+  (forall n vals, n < wb_n W -> is_fcell W n = true -> py_eq (sem n vals) (VStr (ftext n)) = false) ->
+  v' <> VNone -> py_eq v' (VStr (ftext p)) = false ->
+  close_enough tol (spec W sem (wb_inp0 W) p) v' = false ->
+  forall outs, (forall o, In o outs -> o < wb_n W) ->
+    (exists o, In o outs /\ (p = o \/ anc W p o)) ->
+    let r := vs_report (validate (perturb W p v') sem ftext tol outs) in
+    rep_get r p = Some (v', spec W sem (wb_inp0 W) p) /\
+    forall n, rep_get r n <> None -> n = p \/ anc W p n.
+Proof. exact complete. Qed.
+Print Assumptions C12_complete_partial.
+
+(* PARTIAL (no cell's stored or computed value is its formula's text; the
+   exceptions / not-implemented buckets are oracle-only): for ANY stored results
+   (consistent or not) the loop ends with an empty stack within the fuel, and
+   every node the outputs depend on has been processed (is in [verified]) *)
+Theorem C12_no_silent_skip_partial : forall W sem ftext tol outs,
+  wf W -> sem_nonblank W sem -> stored_full W ->
+  (forall n, n < wb_n W -> is_fcell W n = true -> py_eq (wb_stored W n) (VStr (ftext n)) = false) ->
+  (forall n vals, n < wb_n W -> is_fcell W n = true -> py_eq (sem n vals) (VStr (ftext n)) = false) ->
+  (forall n, n < wb_n W -> is_fcell W n = true -> is_scalar (spec W sem (wb_inp0 W) n) = true) ->
+  tol_pos tol ->
+  (forall o, In o outs -> o < wb_n W) ->
+    vs_todo (validate W sem ftext tol outs) = [] /\
+    forall o n, In o outs -> n = o \/ anc W n o ->
+      mem n (vs_verified (validate W sem ftext tol outs)) = true.
+Proof. exact processed_all. Qed.
+Print Assumptions C12_no_silent_skip_partial.
+
+(* the general forms (any number of altered stored results): a cell whose own
+   and whose ancestors' stored results are consistent is never reported … *)
+Theorem C12_clean_not_reported_partial : forall W sem ftext tol outs,
+  wf W -> sem_nonblank W sem -> stored_full W ->
+  (forall n, n < wb_n W -> is_fcell W n = true -> py_eq (wb_stored W n) (VStr (ftext n)) = false) ->
+  (forall n vals, n < wb_n W -> is_fcell W n = true -> py_eq (sem n vals) (VStr (ftext n)) = false) ->
+  (forall n, n < wb_n W -> is_fcell W n = true -> is_scalar (spec W sem (wb_inp0 W) n) = true) ->
+  tol_pos tol ->
+  (forall o, In o outs -> o < wb_n W) ->
+  forall n, clean W sem n -> rep_get (vs_report (validate W sem ftext tol outs)) n = None.
+Proof. exact clean_not_reported. Qed.
+Print Assumptions C12_clean_not_reported_partial.
+
+(* … and a reachable formula cell with consistent ancestors whose stored result
+   is not close to its from-scratch value is reported with exactly that pair *)
+Theorem C12_bad_reported_partial : forall W sem ftext tol outs,
+  wf W -> sem_nonblank W sem -> stored_full W ->
+  (forall n, n < wb_n W -> is_fcell W n = true -> py_eq (wb_stored W n) (VStr (ftext n)) = false) ->
+  (forall n vals, n < wb_n W -> is_fcell W n = true -> py_eq (sem n vals) (VStr (ftext n)) = false) ->
+  (forall n, n < wb_n W -> is_fcell W n = true -> is_scalar (spec W sem (wb_inp0 W) n) = true) ->
+  tol_pos tol ->
+  (forall o, In o outs -> o < wb_n W) ->
+  forall o n, In o outs -> n = o \/ anc W n o -> n < wb_n W -> is_fcell W n = true ->
+    semiclean W sem n ->
+    close_enough tol (spec W sem (wb_inp0 W) n) (wb_stored W n) = false ->
+    rep_get (vs_report (validate W sem ftext tol outs)) n
+    = Some (wb_stored W n, spec W sem (wb_inp0 W) n).
+Proof. exact bad_reported. Qed.
+Print Assumptions C12_bad_reported_partial.
+
+(* close_enough relates every scalar to itself when the tolerance is absent or
+   positive (what makes a second pop of a cell harmless) *)
+Theorem C12_close_enough_refl : forall tol v,
+  tol_pos tol -> is_scalar v = true -> close_enough tol v v = true.
+Proof. exact close_enough_refl. Qed.
+Print Assumptions C12_close_enough_refl.
+
+(* output_addrs=None is an instance of every theorem above: outs = all_formulas W *)
+Theorem C12_outputs_default : forall W o, In o (all_formulas W) -> o < wb_n W.
+Proof. exact all_formulas_lt. Qed.
+Print Assumptions C12_outputs_default.
